@@ -9,7 +9,7 @@ U = Fraction(1, 2 ** 53)
 
 
 def knot_seq(rng, n):
-    style = rng.choice(["monotone", "oscillating", "plateau", "collinear", "nearly_collinear", "uneven", "offset", "random", "zigzag", "gentle", "huge", "tiny_scale", "origin", "signed_zero_plateau", "tiny_osc"])
+    style = rng.choice(["monotone", "oscillating", "plateau", "collinear", "nearly_collinear", "uneven", "offset", "random", "zigzag", "gentle", "huge", "tiny_scale", "origin", "signed_zero_plateau", "tiny_osc", "slope_ratio", "slope_ratio", "odd_abscissa"])
     xs = []
     x = rng.choice([0.0, rng.uniform(-2, 2)])
     if style == "offset":
@@ -54,6 +54,38 @@ def knot_seq(rng, n):
             xs[i] = xs[i - 1] + steps[i]
         for i in range(j - 1, -1, -1):
             xs[i] = xs[i + 1] - steps[i]
+    if style == "slope_ratio":
+        # adjacent secant slopes of the same sign whose ratio is 2^27 .. 2^52: the harmonic mean is within a hair of twice the
+        # flatter slope - but not equal to it; a knot at the origin so that the knot slope is a coefficient on its own
+        j = rng.choice([0, rng.randrange(n)])
+        steps = [rng.choice([1.0, 0.5, 2.0, 0.25]) for _ in range(n)]
+        xs = [0.0] * n
+        for i in range(j + 1, n):
+            xs[i] = xs[i - 1] + steps[i]
+        for i in range(j - 1, -1, -1):
+            xs[i] = xs[i + 1] - steps[i]
+        sg = rng.choice([1.0, -1.0])
+        ys = [rng.choice([0.0, 1.0, -2.0])]
+        sl = rng.choice([1.0, 2.0 ** 30, 0.75])
+        for i in range(1, n):
+            r = rng.random()
+            if r < 0.45:
+                sl = sl * 2.0 ** rng.randint(27, 52) if sl < 2.0 ** 40 else sl / 2.0 ** rng.randint(27, 52)
+            elif r < 0.9:
+                sl = sl / 2.0 ** rng.randint(27, 52) if sl > 2.0 ** -20 else sl * 2.0 ** rng.randint(27, 52)
+            ys.append(ys[-1] + sg * sl * (xs[i] - xs[i - 1]))
+        return style, [[C.bits(a), C.bits(b)] for a, b in zip(xs, ys)]
+    if style == "odd_abscissa":
+        # abscissae that are -0.0, subnormal or the least positive double (never the first knot only): every dx is ordinary
+        base = [-3.0, -1.5, -0.5]
+        mid = rng.choice([-0.0, 5e-324, 1e-310, -0.0, 2.0 ** -1030, 0.0])
+        xs = (base[3 - rng.randint(1, 3):] + [mid] + [0.75, 2.0, 3.5, 5.0, 7.0, 8.0, 10.0, 11.0, 13.0])[:n]
+        if rng.random() < 0.3 and n >= 4:
+            xs = ([-2.0, -0.0, 5e-324 * rng.choice([1, 3, 2 ** 20]), 1.0, 2.5, 4.0, 5.0, 7.0, 8.0, 10.0, 11.0, 13.0])[:n]
+        ys = [rng.choice([rng.uniform(-3, 3), float(rng.randint(-3, 3))]) for _ in xs]
+        if xs[1] == 0 and len(xs) > 2 and abs(xs[2]) < 1e-300:
+            ys[2] = ys[1]                     # a flat step over the tiny interval (dx subnormal): slopes stay finite
+        return style, [[C.bits(a), C.bits(b)] for a, b in zip(xs, ys)]
     if style in ("signed_zero_plateau", "tiny_osc"):
         if style == "signed_zero_plateau":
             # plateaus AT zero whose ordinates are zeros of either sign (slopes +0.0 / -0.0), between ordinary pieces
@@ -271,7 +303,10 @@ class P(Prop):
             dxmin = min(kq[j + 1][0] - kq[j][0] for j in loc)
             amp = (1 + X / dxmin) ** 3
             E = 256 * U * (max(abs(y0), abs(y1)) + smax * dx * amp) + Fraction(1, 2 ** 1000)
-            Ed = 256 * U * smax * amp + Fraction(1, 2 ** 1000)
+            # the derivative of cubic i at its knots is formed from the numbers of THIS interval only (its secant slope and its
+            # two knot slopes, each a harmonic mean bounded by twice the flatter adjacent slope): a steep NEIGHBOUR does not enter
+            sloc = max(abs(s[i]), abs(f[i]), abs(f[i + 1]))
+            Ed = 256 * U * sloc * amp + Fraction(1, 2 ** 1000)
             for (x, y, nm) in ((x0, y0, "left"), (x1, y1, "right")):
                 if abs(pv(p, x) - y) > E:
                     return "cubic %d misses its %s knot: p(%r) = %r, y = %r (tolerance %.3e)" % (i, nm, float(x), float(pv(p, x)), float(y), float(E))
